@@ -22,6 +22,7 @@ type PropConfig struct {
 	Exclude   []string `json:"exclude"`  // pkgpath::func excluded from ::* expansion
 	VerifyFiles []string `json:"verify_files"` // repo-relative files: every function declared in them
 	NilCheck  []string `json:"nilcheck"` // functions (keys) whose nil dereferences are also obligations
+	ParsedOptions bool `json:"parsed_options"` // the messages read are descriptor options normalised by protodesc (set oneof arms hold messages)
 	NilCheckFiles []string `json:"nilcheck_files"` // repo-relative files: nil dereferences and calls on nil interfaces are obligations in every function declared there
 	MinObligations int `json:"min_obligations"`
 	Assumptions []string `json:"assumptions"`
@@ -117,6 +118,7 @@ func runCheck(repo, verif, prop, tier string, seed int) int {
 		fmt.Fprintln(os.Stderr, "load:", err)
 		return 2
 	}
+	eng.parsedOptions = pc.ParsedOptions
 	loadS := time.Since(t0).Seconds()
 	excl := map[string]bool{}
 	for _, x := range pc.Exclude {
